@@ -165,13 +165,21 @@ TPerftNode ==
               /\ (IF (e.depth # 2 \/ c.mv \notin ms) THEN TRUE ELSE Diag("C01", c.count = Cardinality(Legal(Apply(p, c.mv))), [kind |-> "perft leaf count", pos |-> ToFen(p), mv |-> Lan(c.mv)]))
   /\ UNCHANGED <<pos, dom, consts>>
 
+\* parser outcomes on (malformed) text: a result or an error, never a panic or a hang
+TParse ==
+  /\ IsEvent("Parse")
+  /\ LET e == Rec[l] IN
+       \A i \in 1..Len(e.outcomes) :
+         Diag("C14", e.outcomes[i] \in {"ok", "err"}, [kind |-> "parser did not return a value or an error", parser |-> e.kind, profile |-> e.profile, outcome |-> e.outcomes[i], text |-> e.texts[i]])
+  /\ UNCHANGED <<pos, dom, consts>>
+
 TPanic ==
   /\ IsEvent("Panic")
   /\ Diag(Rec[l].prop, FALSE, [kind |-> "panic in code under test", where |-> Rec[l].where, msg |-> Rec[l].msg])
   /\ UNCHANGED <<pos, dom, consts>>
 
 TraceInit == l = 1 /\ pos = StartPos /\ dom = TRUE /\ consts = [mate |-> <<0>>, threshold |-> 0]
-TraceNext == TReset \/ TMove \/ TTerminal \/ TPerformAll \/ TAttackOps \/ THashPair \/ TFen \/ TEvalConsts \/ TEval \/ TPerftNode \/ TPanic
+TraceNext == TParse \/ TReset \/ TMove \/ TTerminal \/ TPerformAll \/ TAttackOps \/ THashPair \/ TFen \/ TEvalConsts \/ TEval \/ TPerftNode \/ TPanic
 
 Accepted == IF TLCGet("stats").diameter - 1 = Len(Rec) THEN PrintT(<<"ACCEPTED", Len(Rec)>>)
             ELSE PrintT(<<"STUCK", TLCGet("stats").diameter, Len(Rec)>>)
